@@ -117,7 +117,7 @@ MUTANTS = {
     "c07-abs-sign": ("pulsarbat/pulsar/phase.py", 'factor=np.sign(v["int"] + v["frac"]),', 'factor=np.sign(v["int"]),', ["C07"]),
     "c15-cmp-cycle": ("pulsarbat/pulsar/phase.py", '                diff = (phases[0]["int"] - phases[1]["int"]) + (\n                    phases[0]["frac"] - phases[1]["frac"]\n                )',
                       '                diff = phases[0].cycle - phases[1].cycle', ["C15"]),
-    "c15-argsort-approx": ("pulsarbat/pulsar/phase.py", "            return np.lexsort(keys=(phase_remainder, phase_approx), axis=axis)", "            return np.argsort(phase_approx, axis=axis, kind='stable')", ["C15"]),
+    "c15-argsort-approx": ("pulsarbat/pulsar/phase.py", '        count, frac = self["int"], self["frac"]', '        count, frac = self.cycle, self.cycle', ["C15"]),
     "c15-exp-shift": ("pulsarbat/pulsar/phase.py", '            s_frac = s_frac + "0" * (exponent - len(s_frac))\n', "", ["C15"]),
     "c15-offset": ("pulsarbat/pulsar/phase.py", "                frac_str = func(frac + 0.25)\n                f24 = int(frac_str[2:4])", "                frac_str = func(frac + 0.25)\n                f24 = int(frac_str[2:4]) + (1 if frac_str[4:5] == '9' else 0)", ["C15"]),
     "c15-argmin-cycle": ("pulsarbat/pulsar/phase.py", '        approx = np.min(self.cycle, axis, keepdims=True)\n        dt = (self["int"] - approx) + self["frac"]\n        return dt.argmin(axis, out)', '        return self.cycle.argmin(axis, out)', ["C15"]),
